@@ -11,7 +11,7 @@ use std::collections::{BTreeMap, HashSet};
 
 use crate::core::cell_info::get_num_children;
 use crate::core::serialization::{
-    cell_to_children, cell_to_parent, get_resolution, get_stride, is_first_child,
+    cell_to_children, cell_to_parent, deserialize, get_resolution, get_stride, is_first_child,
     FIRST_HILBERT_RESOLUTION, MAX_RESOLUTION,
 };
 
@@ -43,6 +43,7 @@ pub fn uncompact(cells: &[u64], target_resolution: i32) -> Result<Vec<u64>, Stri
     let mut resolutions = Vec::with_capacity(cells.len());
 
     for &cell in cells {
+        deserialize(cell)?; // Reject bit patterns that are not cells
         let resolution = get_resolution(cell);
         let resolution_diff = target_resolution - resolution;
         if resolution_diff < 0 {
@@ -86,6 +87,11 @@ pub fn uncompact(cells: &[u64], target_resolution: i32) -> Result<Vec<u64>, Stri
 pub fn compact(cells: &[u64]) -> Result<Vec<u64>, String> {
     if cells.is_empty() {
         return Ok(Vec::new());
+    }
+
+    // Reject bit patterns that are not cells
+    for &cell in cells {
+        deserialize(cell)?;
     }
 
     // Group the unique cells by resolution. Numeric ID order only follows the hierarchy
